@@ -16,8 +16,8 @@ from ..run import Check, run_jobs, src_hash
 
 PID = 'C11'
 OPS = ['next', 'send', 'pause', 'resume', 'stop', 'reset', 'play']
-BEHAV = ['yield-num', 'yield-obj', 'return', 'raise', 'yield-and-reset', 'always-yield', 'self-stop', 'self-pause',
-         'self-reset', 'nested', 'nested-stops-caller']
+BEHAV = ['yield-num', 'yield-obj', 'return', 'raise', 'yield-and-reset', 'always-yield', 'raise-base', 'self-stop',
+         'self-pause', 'self-reset', 'nested', 'nested-stops-caller']
 
 
 def S():
@@ -52,6 +52,9 @@ def routine_scenario(ctx, nops, first):
 
     class Boom(Exception):
         pass
+
+    class BaseBoom(BaseException):
+        pass
     marker = object()
 
     def body(inval):
@@ -59,8 +62,8 @@ def routine_scenario(ctx, nops, first):
         quiet = False      # at most one non-yielding behaviour in a row (bounds the depth of a step)
         while True:
             k = next(step)
-            b = BEHAV[ctx.choose(f'behav{k}', 6 if quiet else len(BEHAV))]
-            quiet = b not in BEHAV[:6]
+            b = BEHAV[ctx.choose(f'behav{k}', 7 if quiet else len(BEHAV))]
+            quiet = b not in BEHAV[:7]
             box['last'] = b
             hist.append(['body', b])
             if b == 'yield-num':
@@ -74,6 +77,8 @@ def routine_scenario(ctx, nops, first):
                 return
             elif b == 'raise':
                 raise Boom('body failure')
+            elif b == 'raise-base':
+                raise BaseBoom('body failure that is not an Exception')      # e.g. KeyboardInterrupt, SystemExit
             elif b == 'yield-and-reset':
                 v = ctx.real(f'y{k}', -5, 5)
                 box['yield'] = v
@@ -174,8 +179,8 @@ def routine_scenario(ctx, nops, first):
                     want = ('raise', 'StopStream')
                     ref.state = 'Done'
                     ref.stale_terminal = ref.terminal is not None
-                elif b == 'raise':
-                    want = ('raise', 'Boom')
+                elif b in ('raise', 'raise-base'):
+                    want = ('raise', 'Boom' if b == 'raise' else 'BaseBoom')
                     ref.state = 'Done'
                     ref.stale_terminal = ref.terminal is not None
                 elif b == 'yield-and-reset':
